@@ -439,13 +439,14 @@ sys_prop(
     "the late-binding situation really goes stale (witness = known finding D8).  L3 (the system model runs "
     "such a pass under the implementation's order, which it checks legal) is tied by correspondence, not by a "
     "theorem connecting Ref.Sys to the abstract pass: partial.",
-    ["Proofs/Dfs.v", "Proofs/Pass.v", "Tie/Graph.v", "Tie/Answers.v", "Tie/Records.v", "Tie/Paths.v", "Proofs/SysGraph.v", "Props/C05.v"],
+    ["Proofs/Dfs.v", "Proofs/Pass.v", "Tie/Graph.v", "Tie/Answers.v", "Tie/Records.v", "Tie/Paths.v", "Proofs/SysGraph.v", "Proofs/SysFresh.v", "Props/C05.v"],
     ["Props/C05.vo"],
     ["C05_pass_visits_exactly_the_affected_once", "C05_dependencies_first",
      "C05_code_follows_the_dfs_and_drains_messages_first", "C05_pass_restores_consistency",
      "C05_late_binding_goes_stale", "C05_recording_as_modelled",
      "C05_code_pass_order_is_one_reversed_post_order", "C05_code_events_reach_the_pass",
-     "C05_reload_relearns_dependencies", "C05_a_pass_skips_nothing_that_depends_on_a_change"],
+     "C05_reload_relearns_dependencies", "C05_a_pass_skips_nothing_that_depends_on_a_change",
+     "C05_reload_installs_what_the_source_holds", "C05_fresh_load_returns_what_the_source_holds"],
     ["Deps", "HotReloading", "Records", "Anycache", "Asset", "Paths"], ["late-bound-stale", "stale-after-pass"], mode="hot",
     assumptions=["I1: a change counts as notified once the reloader has dequeued the event (settle barrier)",
                  "I2/I3: dependencies are those of the load that produced the cached value; a get_cached that "
@@ -476,7 +477,8 @@ sys_prop(
      "C06_value_read_after_a_reported_reload_is_as_new", "C06_code_forgets_dropped_dependencies", "C06_code_visits_each_asset_once",
      "C06_code_watcher_starts_at_the_current_id", "C06_code_pass_bookkeeping",
      "C06_a_pass_reloads_only_dependents_of_changes", "C06_a_notified_pass_reloads_only_dependents_of_changes",
-     "C06_nothing_recorded_never_reloaded", "C06_code_records_are_per_reloader"],
+     "C06_nothing_recorded_never_reloaded", "C06_code_records_are_per_reloader",
+     "C06_cache_operations_only_read_the_source"],
     ["Entry", "CallGraph", "Deps", "Private", "Paths", "Records", "Anycache", "Asset"],
     ["watcher", "guard-not-pinned", "changed-outside-hot_reload", "hot_reload-returned-early", "stale-after-pass"],
     mode="hot", extra_engines=[("rwdiff", [])])
@@ -494,13 +496,13 @@ sys_prop(
     "`later calls recover` and `hot_reload still returns` are exercised by the engines.",
     ["Proofs/SysGrows.v", "Proofs/SysFrame.v", "Proofs/SysRecs.v", "Proofs/SysStatic.v", "Proofs/SysMap.v",
      "Proofs/SysReload.v", "Tie/Records.v", "Tie/Erasure.v", "Tie/Static.v", "Tie/Dirs.v", "Tie/Error.v",
-     "Tie/LoadFromSource.v", "Props/C09.v"],
+     "Tie/LoadFromSource.v", "Proofs/SysGraph.v", "Props/C09.v"],
     ["Props/C09.vo"],
     ["C09_cached_values_untouched", "C09_recording_restored_at_top_level", "C09_recording_stack_restored",
      "C09_code_restores_recording_on_every_exit", "C09_reload_is_all_or_nothing",
      "C09_code_treats_a_panicking_reload_as_failed", "C09_code_failed_reload_keeps_the_old_dependencies",
      "C09_loads_leave_reloader_state", "C09_code_directory_faults_propagate",
-     "C09_code_read_faults_are_reported_not_retried"],
+     "C09_code_read_faults_are_reported_not_retried", "C09_cache_operations_only_read_the_source"],
     ["Records", "Deps", "Anycache", "Dirs", "Flags", "Asset", "Error"], ["hot_reload-hangs-after-loader-panic"], mode="all",
     extra_engines=[("answers", ["--parts", "panic"])])
 
